@@ -285,7 +285,11 @@ def c13_items(tier: str, seed: int):
             "#[enum_tools(rename = \"a\", rename = \"b\")]", "#[enum_tools(rename = \"a\", other)]",
             "#[enum_tools(Rename = \"x\")]", "#[enum_tools(rename = b\"x\")]", "#[enum_tools(rename = 'c')]",
             "#[enum_tools(as_str)]", "#[enum_tools()]", "#[enum_tools(name = \"x\")]", "#[enum_tools(rename = true)]",
-            "#[enum_tools(a::rename = \"x\")]", "#[enum_tools(rename = \"x\",,)]", "#[enum_tools(skip)]"]
+            "#[enum_tools(a::rename = \"x\")]", "#[enum_tools(rename = \"x\",,)]", "#[enum_tools(skip)]",
+            # a well-formed rename together with a malformed attribute on the same variant, in either order
+            "#[enum_tools(rename = \"ok\")] #[enum_tools(skip)]", "#[enum_tools(skip)] #[enum_tools(rename = \"ok\")]",
+            "#[enum_tools(rename = \"ok\")] #[enum_tools(rename = 1)]", "#[enum_tools(rename = \"ok\")] #[enum_tools]",
+            "#[enum_tools(rename = \"ok\")] #[doc = \"x\"] #[enum_tools(other = \"y\")]"]
     for va in vbad:
         for pos in ((0, 2) if tier == "quick" else (0, 1, 2, 3)):
             gv = ["A", "B", "C", "D"]
